@@ -25,6 +25,7 @@ RULE = (
     "and beta for SMCSamples. Non-trivial = a history with a non-contiguous selection followed by >=1 further operation."
 )
 RULE += " " + ('Masks and index arrays are also passed as plain Python lists (NumPy, torch).')
+RULE += " " + ("Parameter names include 'weights', 'log_w', 'evidence'; operation join_other concatenates a set with a copy that lacks one optional field (every present per-sample field of the result must have one value per row).")
 ASSUMPTIONS = [
     "the reference model is a dict of NumPy arrays (same float width) built by the harness, never by aspire",
     "weights of a freshly built weighted set are read once from the real object (exp is not bitwise portable); every later "
